@@ -13,7 +13,7 @@ use mc_core::{
 use crate::svm::{self, addr};
 
 /// an aligned, loader-style account record (see svm.rs) for a stand-alone AccountLoader
-fn record(key: &Pubkey, owner: &Pubkey, data: &[u8]) -> (Vec<u128>, AccountInfo<'static>) {
+pub fn record(key: &Pubkey, owner: &Pubkey, data: &[u8]) -> (Vec<u128>, AccountInfo<'static>) {
     let total = 88 + data.len() + 10240 + 16;
     let mut buf = vec![0u128; (total + 15) / 16];
     let base = buf.as_mut_ptr() as *mut u8;
